@@ -151,16 +151,17 @@ theorem C18_searchsorted_bisect :
   unfold boundsBin bounds
   rw [(key _ q.sl hs).1, (key _ q.su hs).2]
 
-/-- **C18_window_sound** — pruning is sound.  Hypotheses: the bounds are those of
-`__find_hits`, `s_l = y_proj - rad - tol`, `s_u = y_proj + rad + tol` with
-`rad = sqrt (2 x2_max / pc1_e)` (i.e. `rad ≥ 0`, `pc1_e · rad² = 2 x2_max`) and a rounding
-allowance `tol ≥ 0`; and the **spectral inequality** `χ²ᵢ ≥ pc1_e · (projᵢ - y_proj)²`
-(Rayleigh quotient of `S⁻¹` along a unit eigenvector of its largest eigenvalue — a named
-hypothesis, not derived here).  Then every entry left out has `χ² > 2·x2_max ≥ x2_max`. -/
+/-- **C18_window_sound** — pruning is sound.  Hypotheses: the bounds have the form of
+`__find_hits`, `s_l = y_proj - rad - tol`, `s_u = y_proj + rad + tol`, with a radius at least
+the documented one, `rad ≥ 0`, `pc1_e · rad² ≥ 2 x2_max` (the code: `rad = sqrt (2 x2_max / pc1_e)`;
+any wider window is covered too) and a rounding allowance `tol ≥ 0`; and the **spectral
+inequality** `χ²ᵢ ≥ pc1_e · (projᵢ - y_proj)²` (proved from the eigen-decomposition in
+`C18_spectral_inequality`, composed in `C18_x2max_only_leaves_out_large_chi2`).
+Then every entry left out has `χ² > 2·x2_max ≥ x2_max`. -/
 theorem C18_window_sound (db : Db α) (hv : db.Valid) (q : Query α) (hq : q.restricted = true)
     (yproj rad tol pc1e x2max : α)
     (hsl : q.sl = yproj - rad - tol) (hsu : q.su = yproj + rad + tol)
-    (hrad : 0 ≤ rad) (htol : 0 ≤ tol) (hx2 : 0 ≤ x2max) (hrad2 : pc1e * rad ^ 2 = 2 * x2max)
+    (hrad : 0 ≤ rad) (htol : 0 ≤ tol) (hx2 : 0 ≤ x2max) (hrad2 : 2 * x2max ≤ pc1e * rad ^ 2)
     (hpc : 0 < pc1e)
     (spectral : ∀ r ∈ db.rows, pc1e * (r.proj - yproj) ^ 2 ≤ r.chi2) :
     ∀ k (hk : k < db.rows.length), ¬ ((bounds db q).1 ≤ k ∧ k < (bounds db q).2) →
@@ -177,7 +178,7 @@ theorem C18_window_sound (db : Db α) (hv : db.Valid) (q : Query α) (hq : q.res
       nlinarith
     · have : rad < yproj - p := by linarith [not_le.mp h1]
       nlinarith
-  calc 2 * x2max = pc1e * rad ^ 2 := hrad2.symm
+  calc 2 * x2max ≤ pc1e * rad ^ 2 := hrad2
     _ < pc1e * (p - yproj) ^ 2 := mul_lt_mul_of_pos_left hd hpc
     _ ≤ db.rows[k].chi2 := hs
 
@@ -205,7 +206,7 @@ left out by the window weighs at most `g (2·x2_max)`. -/
 theorem C18_excluded_weight_small (db : Db α) (hv : db.Valid) (q : Query α) (hq : q.restricted = true)
     (yproj rad tol pc1e x2max : α)
     (hsl : q.sl = yproj - rad - tol) (hsu : q.su = yproj + rad + tol)
-    (hrad : 0 ≤ rad) (htol : 0 ≤ tol) (hx2 : 0 ≤ x2max) (hrad2 : pc1e * rad ^ 2 = 2 * x2max)
+    (hrad : 0 ≤ rad) (htol : 0 ≤ tol) (hx2 : 0 ≤ x2max) (hrad2 : 2 * x2max ≤ pc1e * rad ^ 2)
     (hpc : 0 < pc1e)
     (spectral : ∀ r ∈ db.rows, pc1e * (r.proj - yproj) ^ 2 ≤ r.chi2)
     (g : α → α) (hg : Antitone g) (hwg : ∀ r ∈ db.rows, r.w = g r.chi2) :
@@ -216,6 +217,67 @@ theorem C18_excluded_weight_small (db : Db α) (hv : db.Valid) (q : Query α) (h
     spectral k hk hout).1
   rw [hwg _ (List.getElem_mem hk)]
   exact hg this.le
+
+/-- the `Row` the real code works with for database entry `e = (yᵢ, xᵢ)` and observation
+`y_obs`: projection on `v` of the centred measurement, `χ²ᵢ = (yᵢ - y_obs)ᵀ S⁻¹ (yᵢ - y_obs)`,
+weight `exp (-χ²ᵢ / 2)` — nothing is a free field any more -/
+noncomputable def spdRow {m : Type} [Fintype m] [DecidableEq m] (S : Matrix m m ℝ)
+    (v ybar yobs : m → ℝ) (e : (m → ℝ) × ℝ) : Row ℝ :=
+  { proj := v ⬝ᵥ (e.1 - ybar)
+    x := e.2
+    chi2 := (e.1 - yobs) ⬝ᵥ (S⁻¹.mulVec (e.1 - yobs))
+    w := Real.exp (-((e.1 - yobs) ⬝ᵥ (S⁻¹.mulVec (e.1 - yobs))) / 2) }
+
+/-- **C18_x2max_only_leaves_out_large_chi2** — the property sentence, end to end over ℝ:
+for ANY database `data` of measurements `yᵢ` and values `xᵢ` (any order), positive definite
+`S`, unit eigenpair `(v, λ)` of `S` (the code: smallest `λ`, `pc1_e = 1/λ`), observation
+`y_obs`, `x2_max ≥ 0`, and a search window `[y_proj - rad - tol, y_proj + rad + tol]` whose
+radius is at least the code's (`rad² / λ ≥ 2·x2_max`, `tol ≥ 0`), with `χ²ᵢ` and the weights
+DEFINED from the quadratic form (`spdRow`):
+every database entry that the window leaves out has `χ² > x2_max` (even `> 2·x2_max`) and
+weight `< exp (-x2_max)`; nothing else about `np.linalg.eig` is used than `S v = λ v`, `v·v = 1`. -/
+theorem C18_x2max_only_leaves_out_large_chi2 {m : Type} [Fintype m] [DecidableEq m]
+    (S : Matrix m m ℝ) (hS : S.PosDef) (v : m → ℝ) (lam : ℝ)
+    (hv : S.mulVec v = lam • v) (hunit : v ⬝ᵥ v = 1)
+    (ybar yobs : m → ℝ) (data : List ((m → ℝ) × ℝ))
+    (x2max rad tol : ℝ) (hx2 : 0 ≤ x2max) (hrad : 0 ≤ rad) (htol : 0 ≤ tol)
+    (hrad2 : 2 * x2max ≤ (1 / lam) * rad ^ 2) :
+    let db := mk (data.map (spdRow S v ybar yobs))
+    let yproj := v ⬝ᵥ (yobs - ybar)
+    let q : Query ℝ := ⟨true, yproj - rad - tol, yproj + rad + tol⟩
+    (∀ r ∈ db.rows, ∃ e ∈ data, r = spdRow S v ybar yobs e) ∧
+    ∀ r ∈ db.rows, r ∉ window db q →
+      x2max < r.chi2 ∧ 2 * x2max < r.chi2 ∧ r.w < Real.exp (-x2max) := by
+  intro db yproj q
+  have hvalid : db.Valid := mk_valid _
+  have hmem : ∀ r ∈ db.rows, ∃ e ∈ data, r = spdRow S v ybar yobs e := by
+    intro r hr
+    have := (mk_rows_perm (data.map (spdRow S v ybar yobs))).mem_iff.mp hr
+    obtain ⟨e, he, rfl⟩ := List.mem_map.mp this
+    exact ⟨e, he, rfl⟩
+  refine ⟨hmem, fun r hr hout => ?_⟩
+  obtain ⟨k, hk, rfl⟩ := List.getElem_of_mem hr
+  have hspec : ∀ r ∈ db.rows, (1 / lam) * (r.proj - yproj) ^ 2 ≤ r.chi2 := by
+    intro r hr
+    obtain ⟨e, _, rfl⟩ := hmem r hr
+    exact (C18_spectral_inequality S hS v lam hv hunit ybar yobs e.1).2
+  have hpc : 0 < 1 / lam := (C18_spectral_inequality S hS v lam hv hunit ybar yobs ybar).1
+  have hnot : ¬ ((bounds db q).1 ≤ k ∧ k < (bounds db q).2) := by
+    intro hin
+    apply hout
+    rw [window_eq_filter db hvalid.projSorted q rfl, List.mem_filter]
+    refine ⟨List.getElem_mem hk, ?_⟩
+    have := (mem_bounds_iff db hvalid.projSorted q rfl k hk).mp hin
+    simpa using this
+  have h := (C18_window_sound db hvalid q rfl yproj rad tol (1 / lam) x2max rfl rfl hrad htol hx2
+    hrad2 hpc hspec k hk hnot).1
+  have hx : x2max < db.rows[k].chi2 := by linarith
+  refine ⟨hx, h, ?_⟩
+  obtain ⟨e, _, he⟩ := hmem _ (List.getElem_mem hk)
+  have hw : db.rows[k].w = Real.exp (-db.rows[k].chi2 / 2) := by rw [he]; rfl
+  rw [hw]
+  apply Real.exp_lt_exp.mpr
+  linarith
 
 /-- **C18_pruned_estimate_bound** — with non-negative weights the estimates over the window
 differ from the estimates over the whole database by at most the excluded entries' share of
@@ -231,7 +293,8 @@ theorem C18_pruned_estimate_bound (db : Db α) (hv : db.Valid) (q : Query α) (h
     let excluded := db.rows.filter (fun r => !(decide (q.sl ≤ r.proj) && decide (r.proj ≤ q.su)))
     let share := (excluded.map (·.w)).sum / (db.rows.map (·.w)).sum
     ∃ m v m' v', predict db q = Est.val m v ∧ predict db qu = Est.val m' v' ∧
-      |m - m'| ≤ share * (hi - lo) ∧ |v - v'| ≤ 2 * share * (hi - lo) ^ 2 := by
+      |m - m'| ≤ share * (hi - lo) ∧ |v - v'| ≤ 2 * share * (hi - lo) ^ 2 ∧
+      0 ≤ v ∧ 0 ≤ v' ∧ 0 ≤ share ∧ lo ≤ hi := by
   intro qu excluded share
   set P : Row α → Bool := fun r => decide (q.sl ≤ r.proj) && decide (r.proj ≤ q.su) with hP
   have hwin : window db q = db.rows.filter P := window_eq_filter db hv.projSorted q hq
@@ -261,7 +324,61 @@ theorem C18_pruned_estimate_bound (db : Db α) (hv : db.Valid) (q : Query α) (h
   simp only at h4
   rw [← hsum, ← hxsum] at h3
   rw [← hsum, ← hxsum, ← hdev] at h4
-  exact ⟨_, _, _, _, h1, h2, h3, h4⟩
+  have hv1 : 0 ≤ wdev (db.rows.filter P) (wxsum (db.rows.filter P) / wsum (db.rows.filter P)) /
+      wsum (db.rows.filter P) := div_nonneg (wdev_nonneg _ _ (fun r hr => (hin r hr).1)) hA.le
+  have hv2 : 0 ≤ wdev db.rows (wxsum db.rows / wsum db.rows) / wsum db.rows :=
+    div_nonneg (wdev_nonneg _ _ (fun r hr => (hrows r hr).1)) hall_pos.le
+  have hshare : 0 ≤ wsum excluded / wsum db.rows := div_nonneg hB hall_pos.le
+  have hlohi : lo ≤ hi := by
+    have hne : db.rows.filter P ≠ [] := by
+      intro h; rw [h] at hA; simp [wsum] at hA
+    obtain ⟨r, hr⟩ := List.exists_mem_of_ne_nil _ hne
+    exact le_trans (hin r hr).2.1 (hin r hr).2.2
+  exact ⟨_, _, _, _, h1, h2, h3, h4, hv1, hv2, hshare, hlohi⟩
+
+/-- `|√a - √b| ≤ √|a - b|` for non-negative reals -/
+private theorem abs_sqrt_sub_sqrt_le {a b : ℝ} (ha : 0 ≤ a) (hb : 0 ≤ b) :
+    |Real.sqrt a - Real.sqrt b| ≤ Real.sqrt |a - b| := by
+  have key : ∀ {a b : ℝ}, 0 ≤ b → b ≤ a → Real.sqrt a - Real.sqrt b ≤ Real.sqrt (a - b) := by
+    intro a b hb hab
+    have hd : 0 ≤ a - b := by linarith
+    have h : Real.sqrt a ≤ Real.sqrt b + Real.sqrt (a - b) := by
+      apply Real.sqrt_le_iff.mpr
+      refine ⟨by positivity, ?_⟩
+      nlinarith [Real.sq_sqrt hb, Real.sq_sqrt hd, mul_nonneg (Real.sqrt_nonneg b) (Real.sqrt_nonneg (a - b))]
+    linarith
+  rcases le_total b a with hab | hab
+  · have h1 := key hb hab
+    have h2 : Real.sqrt b ≤ Real.sqrt a := Real.sqrt_le_sqrt hab
+    rw [abs_of_nonneg (by linarith), abs_of_nonneg (by linarith)]
+    exact h1
+  · have h1 := key ha hab
+    have h2 : Real.sqrt a ≤ Real.sqrt b := Real.sqrt_le_sqrt hab
+    rw [abs_of_nonpos (by linarith), abs_of_nonpos (by linarith)]
+    simpa using h1
+
+/-- **C18_pruned_std_bound** — the standard deviations themselves (what `predict` returns,
+`σ = √var`, over ℝ): `|σ_pruned - σ_all| ≤ √(2·share) · (hi - lo)`; it follows from the
+variance bound of `C18_pruned_estimate_bound` by `|√a - √b| ≤ √|a - b|`.  (A bound linear in
+`share` does not hold for σ itself: when all kept entries share one `x`, `σ_pruned = 0`
+while `σ_all` is of order `√share · R`.) -/
+theorem C18_pruned_std_bound (db : Db ℝ) (hv : db.Valid) (q : Query ℝ) (hq : q.restricted = true)
+    (lo hi : ℝ) (hrows : ∀ r ∈ db.rows, 0 ≤ r.w ∧ lo ≤ r.x ∧ r.x ≤ hi)
+    (hW : 0 < ((window db q).map (·.w)).sum) :
+    let qu : Query ℝ := { q with restricted := false }
+    let excluded := db.rows.filter (fun r => !(decide (q.sl ≤ r.proj) && decide (r.proj ≤ q.su)))
+    let share := (excluded.map (·.w)).sum / (db.rows.map (·.w)).sum
+    ∃ m v m' v', predict db q = Est.val m v ∧ predict db qu = Est.val m' v' ∧
+      |Real.sqrt v - Real.sqrt v'| ≤ Real.sqrt (2 * share) * (hi - lo) := by
+  intro qu excluded share
+  obtain ⟨m, v, m', v', h1, h2, _, h4, hv1, hv2, hs, hlohi⟩ :=
+    C18_pruned_estimate_bound db hv q hq lo hi hrows hW
+  refine ⟨m, v, m', v', h1, h2, ?_⟩
+  have hR : 0 ≤ hi - lo := by linarith
+  calc |Real.sqrt v - Real.sqrt v'| ≤ Real.sqrt |v - v'| := abs_sqrt_sub_sqrt_le hv1 hv2
+    _ ≤ Real.sqrt (2 * share * (hi - lo) ^ 2) := Real.sqrt_le_sqrt h4
+    _ = Real.sqrt (2 * share) * (hi - lo) := by
+        rw [Real.sqrt_mul (by positivity), Real.sqrt_sq hR]
 
 /-! ## the x-sorted view of the window, cdf and quantiles -/
 
@@ -426,14 +543,14 @@ theorem C18_nan_when_no_weight (db : Db α) (hv : db.Valid) (q : Query α) :
 section examples
 
 /-- five entries (unsorted, a tie in the projection, a tie in x, chi2 = (proj - 2)^2, weights
-non-negative with one zero) -/
+`w = max 0 (9 - chi2)`: an anti-monotone function of chi2, non-negative, one of them zero) -/
 private def ex_rows : List (Row ℚ) :=
-  [⟨3, 10, 1, 1⟩, ⟨1, 30, 1, 2⟩, ⟨2, 20, 0, 1⟩, ⟨2, 10, 0, 4⟩, ⟨5, 7, 9, 0⟩]
+  [⟨3, 10, 1, 8⟩, ⟨1, 30, 1, 8⟩, ⟨2, 20, 0, 9⟩, ⟨2, 10, 0, 9⟩, ⟨5, 7, 9, 0⟩]
 
 /-- the state `mk ex_rows` (checked by `#guard` below): rows sorted along the projection,
 `x_sorted_inds` -/
 private def ex_db : Db ℚ :=
-  ⟨[⟨1, 30, 1, 2⟩, ⟨2, 20, 0, 1⟩, ⟨2, 10, 0, 4⟩, ⟨3, 10, 1, 1⟩, ⟨5, 7, 9, 0⟩], [4, 2, 3, 1, 0]⟩
+  ⟨[⟨1, 30, 1, 8⟩, ⟨2, 20, 0, 9⟩, ⟨2, 10, 0, 9⟩, ⟨3, 10, 1, 8⟩, ⟨5, 7, 9, 0⟩], [4, 2, 3, 1, 0]⟩
 
 private def ex_q : Query ℚ := ⟨true, 1, 3⟩      -- y_proj = 2, rad = 1, tol = 0: pc1_e = 1, x2_max = 1/2
 
@@ -442,11 +559,11 @@ private def ex_q : Query ℚ := ⟨true, 1, 3⟩      -- y_proj = 2, rad = 1, to
 example : (mk ex_rows).Valid := mk_valid _
 example : ex_db.Valid := Db.valid_of_validB _ (by decide +kernel)
 example : bounds ex_db ex_q = (0, 4) := by decide +kernel
-example : ((window ex_db ex_q).map (·.w)).sum = 8 := by decide +kernel
+example : ((window ex_db ex_q).map (·.w)).sum = 34 := by decide +kernel
 example : (0 : ℚ) < ((window ex_db ex_q).map (·.w)).sum := by decide +kernel
 -- hypotheses of C18_window_sound hold for this state, and an entry is really left out
 example : ∀ r ∈ ex_db.rows, (1 : ℚ) * (r.proj - 2) ^ 2 ≤ r.chi2 := by decide +kernel
-example : ex_q.sl = (2 : ℚ) - 1 - 0 ∧ ex_q.su = (2 : ℚ) + 1 + 0 ∧ (1 : ℚ) * 1 ^ 2 = 2 * (1 / 2) := by
+example : ex_q.sl = (2 : ℚ) - 1 - 0 ∧ ex_q.su = (2 : ℚ) + 1 + 0 ∧ 2 * (1 / 2) ≤ (1 : ℚ) * 1 ^ 2 := by
   decide +kernel
 example : ¬ ((bounds ex_db ex_q).1 ≤ 4 ∧ 4 < (bounds ex_db ex_q).2) := by decide +kernel
 -- hypotheses of the cdf / quantile / pruning theorems
@@ -461,27 +578,32 @@ example : (window ex_db ⟨true, 4, 9⟩).length = 1 := by decide +kernel
 -- permutation: a different order of the same entries
 example : ex_rows.reverse.Perm ex_rows := List.reverse_perm _
 -- the conclusions evaluated on this state (executable model)
-#guard (match predict ex_db ex_q with | .val m _ => m == (60 + 20 + 40 + 10) / 8 | _ => false)
+#guard (match predict ex_db ex_q with | .val m _ => m == (240 + 180 + 90 + 80) / 34 | _ => false)
 #guard (match cdf ex_db ex_q with
-  | .val xs cum => xs == [10, 10, 20, 30] && cum == [1/2, 5/8, 3/4, 1] | _ => false)
+  | .val xs cum => xs == [10, 10, 20, 30] && cum == [9/34, 17/34, 26/34, 1] | _ => false)
 #guard (match predictQuantiles ex_db ex_q [0, 1/4, 1/2, 9/10, 1] with
-  | .val qs => qs == [10, 10, 10, 26, 30] | _ => false)
+  | .val qs => qs == [10, 10, 10, 103/4, 30] | _ => false)
 #guard (match predict ex_db ⟨true, 4, 9⟩ with | .nan => true | _ => false)
 -- C18_cdf_is_weighted_ecdf: k = 1 is the last index of the group x = 10 (xs[2] = 20 > 10)
-#guard cdfAt ex_db ex_q 10 == 5 / 8 && cdfAt ex_db ex_q 20 == 3 / 4 && cdfAt ex_db ex_q 30 == 1
+#guard cdfAt ex_db ex_q 10 == 1 / 2 && cdfAt ex_db ex_q 20 == 13 / 17 && cdfAt ex_db ex_q 30 == 1
 -- C18_spectral_inequality: S = 1 (2x2) is positive definite with unit eigenvector (1, 0), λ = 1
 example : (1 : Matrix (Fin 2) (Fin 2) ℝ).PosDef := Matrix.PosDef.one
 example : (1 : Matrix (Fin 2) (Fin 2) ℝ).mulVec ![1, 0] = (1 : ℝ) • ![1, 0] ∧ (![1, 0] : Fin 2 → ℝ) ⬝ᵥ ![1, 0] = 1 := by
   constructor
   · simp
   · simp [dotProduct, Fin.sum_univ_two]
--- C18_excluded_weight_small: an anti-monotone weight function compatible with no row being
--- contradicted is e.g. g c = 4 - c on this state restricted to its chi2 values; Antitone is satisfiable:
-example : Antitone (fun c : ℚ => -c / 2) := fun a b h => by simp only; linarith
+-- C18_excluded_weight_small: on this state the weights ARE an anti-monotone function of chi2
+example : Antitone (fun c : ℚ => max 0 (9 - c)) := fun a b h => by
+  simp only; exact max_le_max le_rfl (by linarith)
+example : ∀ r ∈ ex_db.rows, r.w = (fun c : ℚ => max 0 (9 - c)) r.chi2 := by decide +kernel
+-- and the entry left out (k = 4, chi2 = 9 > 2 x2_max = 1) indeed weighs 0 <= g 1 = 8
+-- C18_x2max_only_leaves_out_large_chi2 / C18_pruned_std_bound: hypotheses as above (S = 1, v = e_1, λ = 1,
+-- rad = 1, x2_max = 1/2: 2 * (1/2) ≤ (1/1) * 1^2)
+example : 2 * (1 / 2 : ℝ) ≤ (1 / 1) * 1 ^ 2 := by norm_num
 
 end examples
 
 assert_axioms C18_predict_formula_window C18_predict_formula C18_predict_formula_exp
   C18_perm_invariant C18_window_spec C18_searchsorted_bisect C18_window_sound C18_spectral_inequality
-  C18_excluded_weight_small
+  C18_excluded_weight_small C18_x2max_only_leaves_out_large_chi2 C18_pruned_std_bound
   C18_pruned_estimate_bound C18_xsort_window C18_cdf_monotone_ends_one C18_cdf_is_weighted_ecdf C18_quantiles_monotone_in_range C18_nan_when_no_weight
